@@ -3,6 +3,7 @@ package main
 import (
 	"fmt"
 	"go/token"
+	"go/types"
 	"sort"
 	"strings"
 
@@ -119,6 +120,11 @@ func ruleR02_1(w *World, r *Report) {
 			for _, p := range paths {
 				facts := map[string]fieldFact{}
 				for _, l := range p {
+					if nw := narrowing(l.X); nw != "" {
+						r.Bad(cons+"/difference width", u.Pos(ret.Pos()), "the field difference is narrowed ("+nw+") before its sign is tested: timestamps that far apart compare with the wrong sign")
+						bad = true
+						return
+					}
 					f, ff, ok := diffFact(l, recv, arg)
 					if !ok {
 						r.Undecided(cons+"/branch", u.Pos(ret.Pos()), "unrecognised comparison shape on the path to this return: "+exprName(l.Raw))
@@ -646,4 +652,35 @@ func ruleR02_5(w *World, r *Report) {
 	if n == 0 {
 		r.Lost("a store Value = Value + delta on counterSnapshot")
 	}
+}
+
+// narrowing: v is (a conversion chain over) an integer difference converted to a narrower type.
+func narrowing(v ssa.Value) string {
+	for i := 0; i < 4; i++ {
+		c, ok := v.(*ssa.Convert)
+		if !ok {
+			return ""
+		}
+		from, ok1 := c.X.Type().Underlying().(*types.Basic)
+		to, ok2 := c.Type().Underlying().(*types.Basic)
+		if ok1 && ok2 && from.Info()&types.IsInteger != 0 && to.Info()&types.IsInteger != 0 {
+			if sizeOf(to) < sizeOf(from) {
+				return from.Name() + " -> " + to.Name()
+			}
+		}
+		v = c.X
+	}
+	return ""
+}
+
+func sizeOf(b *types.Basic) int {
+	switch b.Kind() {
+	case types.Int8, types.Uint8:
+		return 1
+	case types.Int16, types.Uint16:
+		return 2
+	case types.Int32, types.Uint32:
+		return 4
+	}
+	return 8
 }
